@@ -147,7 +147,7 @@ pub fn run(cfg: &Cfg, rng: &mut Rng, out: &mut Out) {
     for bits in 1..=cap / 4 { hil_grid::<4>(bits as u32, out, &format!("g4_{bits}")); }
     for bits in 1..=cap / 5 { hil_grid::<5>(bits as u32, out, &format!("g5_{bits}")); }
     // random cells at large bit depths, including the parameter guards
-    let cnt = if thorough { 20000 } else { 1500 };
+    let cnt = if thorough { 20000 } else { 5000 };
     for (i, bits) in [31u32, 17, 31, 9].into_iter().enumerate() {
         hil_random::<2>(rng, bits, cnt / 8, out, &format!("r2_{i}"));
         hil_random::<3>(rng, bits, cnt / 8, out, &format!("r3_{i}"));
@@ -157,7 +157,7 @@ pub fn run(cfg: &Cfg, rng: &mut Rng, out: &mut Out) {
     hil_random::<5>(rng, 26, 4, out, "r5_guard"); // 130 bits: must be refused
     hil_random::<2>(rng, 0, 4, out, "r2_zero");
     hil_random::<2>(rng, 32, 4, out, "r2_big");
-    let no = if thorough { 400 } else { 40 };
+    let no = if thorough { 400 } else { 150 };
     for i in 0..no {
         match 2 + (i % 4) {
             2 => { orders::<2>(&format!("o{i}"), rng, out); dedups::<2>(&format!("e{i}"), rng, out); }
